@@ -25,7 +25,7 @@ BANK = "AntiKt4"
 RULE = (
     "cells = {+,-,*,/,%,**} x ordered pairs of operand kinds {int literal, int count, declared float, double, bool} (% only on "
     "non-negative integer kinds: '%' with a floating operand is a recorded finding), unary {+,-,not} x kinds, six comparisons x pairs, "
-    "conditional x pairs, Sum/Count/Aggregate(int and float seeds)/Max>=0/Min<=0 over int, float and double sequences - all enumerated in "
+    "conditional x pairs, every two binary operators nested either way + unary minus / ** / not against them (double and positive-int operands), Sum/Count/Aggregate(int and float seeds)/Max>=0/Min<=0 over int, float and double sequences - all enumerated in "
     "every run; Hypothesis draws the events (values incl. negatives, zeros, ties, odd/even counts). non-trivial = a cell whose reference "
     "values over the drawn rows are not all equal or contain a non-integer; distinct by (cell, values)."
 )
@@ -56,6 +56,46 @@ def wider(a, b):
 def acceptable(kind: str):
     """column types the property allows for a result of Python kind `kind`"""
     return {"int": {"int"}, "bool": {"bool"}, "float": {"float", "double"}, "double": {"double"}}[kind]
+
+
+def nest_cells():
+    """two binary operators nested either way (precedence / associativity of the emitted C++), unary minus against binary operators, comparisons of
+    comparisons, not over and/or: over a double triple and a positive int triple"""
+    cells = []
+    trip = {
+        "dbl": ("j.pt()", "(j.eta() * j.eta() + 1)", "(j.pt() * j.pt() + 2)"),
+        "int": ("(j.nTrk() + 7)", "(j.constituents().Count() + 1)", "3"),
+    }
+    for kind, (A, B, C) in trip.items():
+        ops = ["+", "-", "*", "/"] + (["%"] if kind == "int" else [])
+        for o1, o2 in itertools.product(ops, ops):
+            rk = "double" if (kind == "dbl" or "/" in (o1, o2)) else "int"
+            # right-nested: A o1 (B o2 C); the right operand of / and % must stay positive
+            # ('%' with a floating operand - here: a quotient - is the recorded finding mod-float: left out)
+            if o1 == "%" and o2 == "/":
+                continue
+            if not (o1 in ("/", "%") and o2 in ("-", "%")):
+                cells.append((f"nest-r:{kind}:{o1}({o2})", f"({A} {o1} ({B} {o2} {C}))", rk))
+            # left-nested: (A o1 B) o2 C
+            if o1 in ("/", "-") and o2 == "%":
+                continue  # a quotient (mod-float) or a possibly negative difference (outside the property's domain) as the left operand of %
+            cells.append((f"nest-l:{kind}:({o1}){o2}", f"(({A} {o1} {B}) {o2} {C})", rk))
+        for o in ("+", "-", "*", "/"):
+            rk = "double" if (kind == "dbl" or o == "/") else "int"
+            cells.append((f"neg-of:{kind}:{o}", f"(-({A} {o} {B}))", rk))
+            cells.append((f"op-neg:{kind}:{o}", f"({A} {o} (-{B}))", rk))
+            cells.append((f"neg-op:{kind}:{o}", f"((-{A}) {o} {B})", rk))
+        cells.append((f"neg-pow:{kind}", f"(-{B} ** 2)", "double"))
+        cells.append((f"pow-of-neg:{kind}", f"((-{B}) ** 2)", "double"))
+        cells.append((f"pow-neg-exp:{kind}", f"({B} ** -2)", "double"))
+        cells.append((f"pow-chain:{kind}", f"(2 ** {C if kind == 'int' else '2'} ** 2)", "double"))
+        cells.append((f"cmp-of-cmp:{kind}", f"(({A} < {B}) == ({C} < {B}))", "bool"))
+        cells.append((f"not-and:{kind}", f"(not ({A} > {B} and {C} > {B}))", "bool"))
+        cells.append((f"not-or:{kind}", f"(not ({A} > {B} or {C} > {B}))", "bool"))
+        cells.append((f"sub-sub:{kind}", f"({A} - {B} - {C})", "double" if kind == "dbl" else "int"))
+        cells.append((f"div-div:{kind}", f"({A} / {B} / {C})", "double"))
+        cells.append((f"ifexp-arith:{kind}", f"(({A} if {A} > {B} else {B}) * 2)", "double"))
+    return cells
 
 
 def build_cells():
@@ -116,6 +156,7 @@ def build_cells():
     cells.append(("nested-int", "((j.nTrk() + 3) * (j.nTrk() - 2))", "int"))
     cells.append(("nested-mixed", "((j.nTrk() + 3) * j.emf() + j.pt())", "double"))
     cells.append(("int-then-div", "((j.nTrk() + 3) / (j.constituents().Count() + 1))", "double"))
+    cells.extend(nest_cells())
     seen = set()
     out = []
     for c in cells:
